@@ -75,6 +75,15 @@ Theorem C12_reject_keeps_active : forall n a t,
 Proof. exact reject_keeps_active. Qed.
 Print Assumptions C12_reject_keeps_active.
 
+(* Every way of not answering 200: body read error after any prefix (even one
+   that is a complete valid configuration), rejected configuration, method
+   other than POST - and GET / probe traffic - leaves config text, request
+   half and response half exactly as they were. *)
+Theorem C12_only_a_200_changes_the_active_configuration : forall n a c,
+  snd (impl_step n a c) <> OStatus true -> fst (impl_step n a c) = a.
+Proof. exact only_200_changes_active. Qed.
+Print Assumptions C12_only_a_200_changes_the_active_configuration.
+
 (* An accepted one replaces it completely: afterwards the Modifier's behaviour
    on every message is the new tree's meaning, independent of what was active. *)
 Theorem C12_accept_replaces : forall n a t,
@@ -268,10 +277,12 @@ Example C12_example_script :
       Post (Leaf 1 None true true false false); Probe KRes (fun _ => true);
       Post (Fifo None false [Leaf 2 None true true false false; Bad 0]); Probe KRes (fun _ => true); Get;
       Post (Leaf 3 (Some [SReq]) true true true false); Probe KRes (fun _ => true);
-      Probe KReq (fun _ => true); Get ]%N
+      Probe KReq (fun _ => true); Get;
+      PostErr (Leaf 4 None true true false false); Probe KReq (fun _ => true); BadMethod; Get ]%N
   = [ OCfg None; OOut [] [];
       OStatus true; OOut [1] [];
       OStatus false; OOut [1] []; OCfg (Some 2%nat);
       OStatus true; OOut [] [];
-      OOut [3] [3]; OCfg (Some 7%nat) ]%N.
+      OOut [3] [3]; OCfg (Some 7%nat);
+      ORefused 500; OOut [3] [3]; ORefused 405; OCfg (Some 7%nat) ]%N.
 Proof. vm_compute. reflexivity. Qed.
